@@ -2,6 +2,7 @@ package main
 
 import (
 	"fmt"
+	"strings"
 
 	"golang.org/x/tools/go/ssa"
 )
@@ -79,4 +80,50 @@ func runC02(c *Ctx) {
 	ruleDotStructure(c)
 	ruleDataSource(c) // a second buffer between the connection and the automaton over-reads past the end marker
 	ruleDrains(c)
+	ruleDrainFailureCloses(c)
+}
+
+// ruleDrainFailureCloses (C02, C04, C05): a discard that stops before the end of the message / chunk (read timeout,
+// connection error) leaves the stream position inside message data. On every such path the connection is closed —
+// directly, or by signalling failure to the handler that closes — before the next command line can be read.
+func ruleDrainFailureCloses(c *Ctx) {
+	R := c.R
+	R.Rule("R-drain-failure-closes", "E2 must-pass-through + E3", "when the discard of an unread message remainder or chunk returns an error, every path to the handler's exit closes the connection (or reports the failure to the handler, which closes on it)", 6)
+	n := 0
+	for _, d := range c.Sites("drain") {
+		f := d.Parent()
+		if !strings.HasPrefix(funcName(f), "(*Conn).") {
+			continue
+		}
+		n++
+		dv, ok := d.(ssa.Value)
+		if !ok {
+			continue
+		}
+		errAtom := describe(dv) + "#1"
+		isSignal := func(in ssa.Instruction) bool {
+			snd, ok := in.(*ssa.Send)
+			return ok && describe(snd.X) == "("+errAtom+" == nil)"
+		}
+		site := d
+		v := RunPend(f, PendRule{
+			Trig: func(in ssa.Instruction) bool { return in == site },
+			Disch: func(in ssa.Instruction) bool {
+				return c.mustDo(lClose)(in) || isSignal(in)
+			},
+			DeferD:   c.deferMustDo(lClose),
+			SkipEdge: c.F.SkipUnder(errAtom + " != nil"),
+			PhiOK:    c.F.PhiFeasible(errAtom + " != nil"),
+			AtExit:   true,
+		})
+		dmsg := ""
+		if len(v) > 0 {
+			dmsg = fmt.Sprintf("the discard at %s can fail (timeout, connection error) and the path to the return at %s neither closes the connection nor reports the failure: the rest of the message is then read as commands", c.P.InstrPos(d), c.P.InstrPos(v[0].At))
+		}
+		R.Ob(c.siteKey(d, "failed discard closes the connection"), c.P.InstrPos(d), len(v) == 0, dmsg)
+	}
+	R.Ob("drain sites/found", "-", n >= 4, fmt.Sprintf("%d discard sites in Conn handlers", n))
+	if f := c.A.Func("(*Conn).handleDataLMTP"); f != nil {
+		c.obMustUnder("a delivery that reports failure closes the connection", f, []string{lClose}, `<-makechan(1) == false`)
+	}
 }
